@@ -53,7 +53,7 @@ static scheme_t SCH[] = {
 	{ "sm4-gcm-stream", 1, 12, 1, sgcm_seal, sgcm_open }, { "sm4-cbc-sm3-hmac", 1, 16, 0, cbch_seal, cbch_open }, { "sm4-ctr-sm3-hmac", 1, 16, 0, ctrh_seal, ctrh_open },
 };
 #define NSCH 6
-static const size_t ML_Q[] = { 0, 1, 17 }, ML_T[] = { 0, 1, 15, 16, 17, 33 }, AL[] = { 0, 1, 20, 15, 16, 17, 32 }; /* incl. block-aligned AAD: the last AAD block of GHASH / CBC-MAC is then a full block */
+static const size_t ML_Q[] = { 0, 1, 17, 40 }, ML_T[] = { 0, 1, 15, 16, 17, 33, 40, 80 }, AL[] = { 0, 1, 20, 15, 16, 17, 32 }; /* incl. block-aligned AAD: the last AAD block of GHASH / CBC-MAC is then a full block */
 
 static void expect_reject(const scheme_t *s, const char *field, const char *kind, int r, size_t n, size_t al, size_t tl, size_t pos, size_t cut) {
 	if (r == 1) { char key[160]; snprintf(key, sizeof key, "C05:%s:%s-%s-accepted", s->name, field, kind); vh_viol(key, "\"msglen\":%zu,\"aadlen\":%zu,\"taglen\":%zu,\"pos\":%zu,\"cut\":%zu", n, al, tl, pos, cut); }
@@ -88,7 +88,7 @@ static void one_sealed(const scheme_t *s, size_t n, size_t al, size_t tl, size_t
 static void body(void) {
 	for (int si = 0; si < NSCH; si++) {
 		const scheme_t *s = &SCH[si]; char bn[64]; snprintf(bn, sizeof bn, "tamper-%s", s->name); if (!vh_block_begin(bn)) continue;
-		const size_t *ML = vh_thorough ? ML_T : ML_Q; int nml = vh_thorough ? 6 : 3;
+		const size_t *ML = vh_thorough ? ML_T : ML_Q; int nml = vh_thorough ? 8 : 4; /* 40 and 80: the stream is longer than two tag-sized windows, so a single update crosses the look-behind buffer and goes on (the branch coverage run showed the quick tier never took it) */
 		for (int mi = 0; mi < nml; mi++) for (int ai = 0; ai < 7; ai++) { if (ai >= 3 && !vh_thorough && mi != 1) continue; /* the block-aligned AAD lengths with one message length in the quick tier */
 			size_t tl0 = 12, tl1 = 16, tstep = vh_thorough ? 1 : 4; if (!strcmp(s->name, "sm4-ccm")) { tl0 = 4; tstep = vh_thorough ? 2 : 6; } if (strstr(s->name, "hmac")) { tl0 = tl1 = 32; }
 			for (size_t tl = tl0; tl <= tl1; tl += tstep) {
